@@ -35,4 +35,10 @@ PROPS = {
         "min_nontrivial": {"quick": 1000, "thorough": 10000},
         "technique": "runtime monitoring: i128 matrix model + metamorphic (exact-map commutation) oracle over observed results",
     },
+    "C14": {
+        "budget": {"quick": 12000, "thorough": 250000},
+        "rule": "valid lattice polygons / multipolygons from the generators, mutated into one invalidity class at a time (bow-tie, spike, collinear ring, vertex revisit, hole moved outside/across the shell, hole sharing an edge, nested/overlapping/identical holes, overlapping / edge-sharing / identical members, member made invalid, too few points, unclosed input, repeated consecutive vertex, random vertex move) plus the other types with their own rules and a non-finite-coordinate stratum; is_valid (enum and concrete type) must equal the exact clause-by-clause predicate, validation_errors().is_empty() and check_validation().is_ok() must equal is_valid, and every reported polygon / multipolygon error must name a ring or member for which the corresponding exact predicate holds. Non-trivial = geometry with >= 3 segments; distinct by digest.",
+        "assumptions": [DOMAIN, "rings are judged after removing repeated consecutive coordinates and closing them, as geo-types and the documentation do", "interior connectedness is not part of the statement (nor of geo's documented rules) and is not judged"],
+        "min_nontrivial": {"quick": 1000, "thorough": 10000},
+    },
 }
